@@ -3,6 +3,7 @@ From V Require Import lib.Base gen.GenLocks model.Conc spec.ConcSpec spec.ConcFu
 
 Lemma clean_all_ok : clean_all = true. Proof. vm_compute. reflexivity. Qed.
 Lemma discipline_full_ok : lock_discipline_ok = true. Proof. vm_compute. reflexivity. Qed.
+Lemma one_cs_all_ok : one_cs_all = true. Proof. vm_compute. reflexivity. Qed.
 
 Lemma all_methods_clean n : In n api_methods -> clean_method n = true.
 Proof.
@@ -27,4 +28,21 @@ Proof.
   intros threads sched tr Hconf [tr' [Htr' Hok]] Htr Hpub.
   rewrite Htr in Htr'. inversion Htr'; subst tr'.
   eapply drf_generic; try eassumption. apply conforming_threads_disciplined_full. exact Hconf.
+Qed.
+
+Lemma leb1 n : Nat.leb n 1 = true -> (n <= 1)%nat.
+Proof. destruct n as [|[|n]]; intros Hn; [auto | auto | discriminate Hn]. Qed.
+
+Lemma one_cs_methods m : In m api_methods -> one_cs_method m = true.
+Proof.
+  intros H. pose proof one_cs_all_ok as Hc. unfold one_cs_all in Hc.
+  rewrite forallb_forall in Hc. exact (Hc m H).
+Qed.
+
+(* lock_site_count m with m a variable must not be unfolded by the conversion check (it would
+   walk the call graph symbolically); one_cs_method is unfolded instead *)
+Strategy opaque [lock_site_count].
+Theorem one_critical_section_per_call m : In m api_methods -> (lock_site_count m <= 1)%nat.
+Proof.
+  intros H. pose proof (one_cs_methods m H) as Ht. unfold one_cs_method in Ht. apply leb1. exact Ht.
 Qed.
